@@ -3,7 +3,8 @@
 import json, os, sys, subprocess
 ROOT = os.path.dirname(os.path.dirname(os.path.abspath(__file__)))
 sys.path.insert(0, os.path.join(ROOT, "harness"))
-from registry import REGISTRY, NOT_APPLICABLE, HOOK_COMMITS
+from registry import REGISTRY, NOT_APPLICABLE, HOOK_COMMITS, READY
+REGISTRY = {k: v for k, v in REGISTRY.items() if k in READY}
 props = [json.loads(l) for l in open(os.path.join(ROOT, "properties.jsonl"))]
 checks = []
 for p in props:
